@@ -443,9 +443,10 @@ class MTVRPAdapter(RoutingAdapter):
                 "sv": [fr(v) for v in td["service_time"][0].tolist()], "D": D, "T": T}
 
     @staticmethod
-    def route_faults(S, r):
-        """which parts of the problem definition a non-empty route violates; also reports zero-slack time steps"""
-        le = lambda a, b: b is None or a <= b
+    def route_faults(S, r, slack=0):
+        """which parts of the problem definition a non-empty route violates (by more than [slack]); also reports zero-slack
+        time steps"""
+        le = lambda a, b: b is None or a <= b + slack
         faults, tight = [], False
         if not le(sum(S["dl"][j] for j in r), S["cap"]):
             faults.append("linehaul-load")
@@ -533,6 +534,13 @@ class MTVRPAdapter(RoutingAdapter):
                 t = Fraction(0)
         return True
 
+    @staticmethod
+    def data_assert_ok(S, use_speed):
+        """the instance-level assert of check_solution_validity: lo j + d(j,0) + service j <= hi 0 for every node -- with
+        the plain distance, as the code has it, or with distance / speed"""
+        M = S["T"] if use_speed else S["D"]
+        return S["hi"][0] is None or all(S["lo"][j] + M[j][0] + S["sv"][j] <= S["hi"][0] for j in range(len(S["lo"])))
+
     def signature(self, item, tag, step):
         """<env>/<feature>: <mechanism> for the mechanisms that are understood (each is a recorded finding, open or fixed);
         <env>/<preset>: <generic tag> otherwise"""
@@ -542,7 +550,9 @@ class MTVRPAdapter(RoutingAdapter):
             S = self.spec_data(item.td_in)
             acts = item.ep.actions
             routes = self.split_routes(acts)
-            fl = [self.route_faults(S, r) for r in routes]
+            # on float data (generator stream) a constraint counts as violated only beyond the slack the harness grants
+            slack = 0 if self.is_exact(item.td_in) else 3 * Fraction(1e-5)
+            fl = [self.route_faults(S, r, slack) for r in routes]
             faults = sorted({x for f, _ in fl for x in f})
             tight = any(t for _, t in fl)
             speed = float(item.td_in["speed"][0, 0])
@@ -553,6 +563,8 @@ class MTVRPAdapter(RoutingAdapter):
             if tag == 14 and in_range and has_tw:
                 if S["open"] and not self.clock_ok(S, acts, True):
                     return "mtvrp/O+TW: checker-enforces-depot-deadline-on-open-route"       # open
+                if speed != 1.0 and self.clock_ok(S, acts, True) and self.data_assert_ok(S, True) and not self.data_assert_ok(S, False):
+                    return "mtvrp/TW,speed!=1: checker-data-assert-ignores-speed"            # residual of the speed defect
                 if speed != 1.0 and self.clock_ok(S, acts, True) and not self.clock_ok(S, acts, False):
                     return "mtvrp/TW,speed!=1: checker-ignores-speed"                        # fixed by /repo ea27328
             if tag == 15 and in_range:
@@ -602,6 +614,8 @@ class MTVRPAdapter(RoutingAdapter):
             ("open_depot", mk([P(0), P(80)], [0, .5], [0, 0], open_=True, tw=[[0, 1.0], [0, 115 / 128.0]], svc=[0, 0]), [1, 0]),
             ("speed2", mk([P(0), P(80)], [0, .5], [0, 0], tw=[[0, 4.0], [0, 0.5]], svc=[0, 0], speed=2.0), [1, 0]),
             ("speed_half", mk([P(0), P(80)], [0, .5], [0, 0], tw=[[0, 4.0], [0, 1.0]], svc=[0, 0], speed=0.5), [1, 0]),
+            # speed 2: window opens at 40/128 = arrival; back at 80/128 <= 100/128; the data assert adds the distance 80/128
+            ("data_assert_speed", mk([P(0), P(80)], [0, .5], [0, 0], tw=[[0, 100 / 128.0], [40 / 128.0, 1.0]], svc=[0, 0], speed=2.0), [1, 0]),
         ]
 
     def _fake_item(self, env, td, acts, meta, verdict=None):
@@ -682,7 +696,7 @@ class MTVRPAdapter(RoutingAdapter):
         for p in pools:
             rng.shuffle(p)
             # popped from the end: instances with speed != 1 (time != distance) are enumerated first
-            p.sort(key=lambda it: float(it.td_in["speed"][0, 0]) != 1.0)
+            p.sort(key=lambda it: (float(it.td_in["speed"][0, 0]) != 1.0, str(it.meta.get("kind", "")).startswith("exact/hand")))
         while pools and len(chosen) < budget:
             for p in list(pools):
                 if p and len(chosen) < budget:
